@@ -727,6 +727,10 @@ pub fn check_main(check: &'static dyn Check, tier: Tier) -> i32 {
     ]);
     let _ = std::fs::create_dir_all(format!("{}/evidence", VERIF_ROOT));
     let _ = std::fs::write(format!("{}/evidence/{}.json", VERIF_ROOT, id), ev.to_string());
+    // the last run of each tier is kept beside it, so that a quick run does not erase what the
+    // thorough tier covered
+    let _ = std::fs::create_dir_all(format!("{}/evidence/by-tier", VERIF_ROOT));
+    let _ = std::fs::write(format!("{}/evidence/by-tier/{}.{}.json", VERIF_ROOT, id, tier.name()), ev.to_string());
 
     eprintln!(
         "[{}] {} tier: {} cases, {} executions, {} validated, {} known-finding cases, {} violations, {:.1}s",
